@@ -52,7 +52,7 @@ var atoms = []ref.RuleAtom{
 	{Name: "precision"}, {Name: "minLength"}, {Name: "maxLength"}, {Name: "maxLength", Variant: "disordered"}, {Name: "regex"}, {Name: "regex", Variant: "escaped"},
 	{Name: "minItems"}, {Name: "maxItems"}, {Name: "maxItems", Variant: "disordered"},
 	{Name: "additionalProperties"}, {Name: "allOf"}, {Name: "allOf", Variant: "empty-parent"}, {Name: "enum"}, {Name: "or"}, {Name: "or", Variant: "disordered-set"}, {Name: "or", Variant: "ordered-set"}, {Name: "or", Variant: "format-with-length-set"}, {Name: "or", Variant: "ref-nullable-set"}, {Name: "or", Variant: "ref-optional-set"},
-	{Name: "or", Variant: "exclusive-empty-set"}, {Name: "or", Variant: "exclusive-ok-set"}, {Name: "or", Variant: "foreign-kind-set"}, {Name: "or", Variant: "foreign-rule-same-kind-set"}, {Name: "or", Variant: "huge-length-set"}, {Name: "or", Variant: "with-any"}, {Name: "or", Variant: "foreign-rule-same-kind-admitted-set"}, {Name: "or", Variant: "inert-only-set"}, {Name: "or", Variant: "inert-false-in-set"},
+	{Name: "or", Variant: "exclusive-empty-set"}, {Name: "or", Variant: "exclusive-ok-set"}, {Name: "or", Variant: "foreign-kind-set"}, {Name: "or", Variant: "foreign-rule-same-kind-set"}, {Name: "or", Variant: "huge-length-set"}, {Name: "or", Variant: "with-any"}, {Name: "or", Variant: "foreign-rule-same-kind-admitted-set"}, {Name: "or", Variant: "inert-only-set"}, {Name: "or", Variant: "inert-false-in-set"}, {Name: "or", Variant: "two-kinds-typeless-set"},
 	{Name: "minLength", Variant: "huge"}, {Name: "minItems", Variant: "huge"}, {Name: "precision", Variant: "huge"},
 	{Name: "type", Variant: "kind"}, {Name: "type", Variant: "any"}, {Name: "type", Variant: "ref"}, {Name: "type", Variant: "decimal"}, {Name: "type", Variant: "date"}, {Name: "type", Variant: "mixed"}, {Name: "type", Variant: "mixed-again"},
 	{Name: "type", Variant: "enum"}, {Name: "type", Variant: "enum-escaped"}, {Name: "type", Variant: "kind-escaped"},
@@ -249,6 +249,11 @@ func build(c Case) (*ref.SNode, []ref.RuleAtom, bool) {
 				r.Or = []ref.OrItem{{Rules: []ref.SRule{gen.BoolRule("nullable", false)}}, {Name: kn}}
 			case "inert-false-in-set": // nullable: false / const: false written next to the type of a rule set
 				r.Or = []ref.OrItem{{Rules: []ref.SRule{gen.StrRule("type", kn), gen.BoolRule("nullable", false)}}, {Rules: []ref.SRule{gen.BoolRule("const", false), gen.StrRule("type", other)}}}
+			case "two-kinds-typeless-set": // a rule set that names no type and holds rules for two different kinds: whatever kind it stands for, one of them does not apply
+				pairs := [][]ref.SRule{{gen.TokRule("min", "1"), gen.TokRule("minLength", "1")}, {gen.TokRule("minItems", "1"), gen.StrRule("regex", "a")}, {gen.TokRule("maxLength", "9"), gen.TokRule("maxItems", "3")},
+					{gen.TokRule("additionalProperties", "true"), gen.TokRule("max", "9")}, {gen.TokRule("minLength", "0"), gen.TokRule("max", "1")}}
+				pair := pairs[(len(c.Rules)+len(kn))%len(pairs)]
+				r.Or = []ref.OrItem{{Rules: pair}, {Name: kn}}
 			case "ordered-set":
 				pair := []ref.SRule{gen.TokRule("min", "1"), gen.TokRule("max", "5")}
 				if c.Kind == ref.NKInteger || c.Kind == ref.NKFloat {
